@@ -19,7 +19,9 @@ from pathlib import Path
 V = Path(__file__).resolve().parent.parent
 SEEDED = V / "seeded"
 REPO = "/repo"
-ENV = dict(os.environ, PYTHONHASHSEED="0", PYTHONDONTWRITEBYTECODE="1")
+ENV = dict(os.environ, PYTHONHASHSEED="0", PYTHONDONTWRITEBYTECODE="1",
+           XDG_CACHE_HOME="/tmp/seedchk/xdg_cache")   # pint's ':auto:' disk cache is keyed by file CONTENT but stores
+#   absolute paths: a test run in a scratch worktree would poison ~/.cache/pint for /repo's own test_diskcache.py
 
 
 def sh(cmd, **kw):
